@@ -18,6 +18,65 @@ import (
 	"wv/core"
 )
 
+// runC01IterJump (O15.iterjump): a break/continue is given a jump target only
+// if that target is not an iterate statement. cgen advances the iterated slices
+// at the end of each unrolled copy of the body and emits a plain C
+// continue/break for such a jump, so a `continue` skips the advance: with
+// unroll 2 on a 2-byte slice the second copy reads one byte past the slice in a
+// program the compiler accepted (repaired defect 23538cb; repro/c01/).
+func runC01IterJump(k *gctx) {
+	c := k.c
+	p := k.g.Pkg("lang/parse")
+	if p == nil {
+		c.Undecided("O15.iterjump", "lang/parse", "lang/parse is loaded", "package not loaded")
+		return
+	}
+	iterID := k.obj("anchors", "lang/token", "IDIterate")
+	n := 0
+	for _, f := range k.g.AllFuncs(p) {
+		info := f.Info()
+		var sets []*ast.CallExpr
+		ast.Inspect(f.Decl.Body, func(m ast.Node) bool {
+			if call, ok := m.(*ast.CallExpr); ok {
+				if fn := core.Callee(info, call); fn != nil && fn.Name() == "SetJumpTarget" && len(call.Args) == 1 {
+					sets = append(sets, call)
+				}
+			}
+			return true
+		})
+		if len(sets) == 0 {
+			continue
+		}
+		fl := core.NewFlow(f)
+		for _, call := range sets {
+			call := call
+			target := fl.Obj(call.Args[0])
+			n++
+			k.mustPass("O15.iterjump", f.Name()+"[SetJumpTarget]",
+				"a break/continue gets a jump target only past the test that the target is not an iterate statement (`loop.Keyword() == t.IDIterate` ⇒ parse error): the generated code for a jump to an iterate loop skips the slice advance, which is an out-of-bounds read in an accepted program",
+				fl, core.Query{
+					Exit: func(x ast.Node) bool { return core.AnyCall(x, func(cl *ast.CallExpr) bool { return cl == call }) },
+					Events: []core.Event{{Edge: func(cond ast.Expr, ci *core.CondInfo, taken bool) bool {
+						ce, neg := boolCond(cond)
+						if neg {
+							taken = !taken
+						}
+						isKw := func(e ast.Expr) bool {
+							cl, ok := ast.Unparen(e).(*ast.CallExpr)
+							if !ok {
+								return false
+							}
+							fn := core.Callee(info, cl)
+							return fn != nil && fn.Name() == "Keyword" && target != nil && fl.Obj(core.RecvOf(cl)) == target
+						}
+						return eqTest(fl, ce, isKw, fl.Is(iterID), !taken)
+					}}},
+				})
+		}
+	}
+	c.Floor("O15.iterjump", "SetJumpTarget calls in lang/parse", n, 1)
+}
+
 func runC01ArgChecks(k *gctx) {
 	c := k.c
 	fl := k.flow("O14", "internal/cgen", "gen", "writeFuncImplArgChecks")
